@@ -487,10 +487,94 @@ func (c *Ctx) ContributionRules(prop string) {
 			} else {
 				c.R.OK(rule4, key, c.Pos(ci), "success is answered only below the nil-error edge of "+ci.Common().Method.Name())
 			}
+			// and what is answered on the failing side is an error: the value returned there is the process error itself or
+			// built by a constructor that cannot yield nil (an error mapped through a table without a default can)
+			ek := errResultIndex(H)
+			for _, ret := range an.Returns(H) {
+				if ek < 0 || isNilReturn(ret, H) || !an.Reachable(an.After(ci.(ssa.Instruction)), ret) {
+					continue
+				}
+				target := ssa.Instruction(ret)
+				if x, _ := an.Cut(an.CutQuery{From: an.After(ci.(ssa.Instruction)), Target: func(i ssa.Instruction) bool { return i == target },
+					AcceptEdge: func(b *ssa.BasicBlock, i int, a *an.Atom) bool { return errNilAtom(a, errs) }}); x == nil {
+					continue // only reached on the succeeding side
+				}
+				if why := nonNilError(an.Result(ret, ek), errs, 0); why != "" {
+					c.R.Fail(rule4, Fn(H)+":"+ci.Common().Method.Name()+":error-is-error", c.Pos(ret), "on the failing side of "+ci.Common().Method.Name()+" the handler returns a value that can be nil, i.e. success: "+why, "the process error itself, or errors.New / fmt.Errorf / Wrap of it / status.Error with a non-OK code", nil)
+				}
+			}
 		}
 	}
 	c.R.Floor(rule4, "process-service calls in the receiver handlers", nprop, 5)
 	_ = token.ADD
+}
+
+// nonNilError: "" when v cannot be nil given that the values in nonNil are non-nil errors; else the reason.
+func nonNilError(v ssa.Value, nonNil map[ssa.Value]bool, depth int) string {
+	if depth > 4 {
+		return "a value chain too long to follow"
+	}
+	v = unwrapErr(v)
+	if nonNil[v] {
+		return ""
+	}
+	switch x := v.(type) {
+	case *ssa.Const:
+		if x.Value == nil {
+			return "nil"
+		}
+	case *ssa.MakeInterface:
+		if _, isPtr := x.X.Type().Underlying().(*types.Pointer); !isPtr {
+			return "" // a concrete non-pointer error value
+		}
+		if _, isAlloc := x.X.(*ssa.Alloc); isAlloc {
+			return ""
+		}
+	case *ssa.Phi:
+		for _, e := range x.Edges {
+			if why := nonNilError(e, nonNil, depth+1); why != "" {
+				return why
+			}
+		}
+		return ""
+	case *ssa.Call:
+		f := x.Call.StaticCallee()
+		if f == nil {
+			return "the result of a dynamic call"
+		}
+		switch f.String() {
+		case "errors.New", "fmt.Errorf", "github.com/pkg/errors.New", "github.com/pkg/errors.Errorf":
+			return ""
+		case "github.com/pkg/errors.Wrap", "github.com/pkg/errors.Wrapf", "github.com/pkg/errors.WithMessage", "github.com/pkg/errors.WithStack":
+			return nonNilError(x.Call.Args[0], nonNil, depth+1) // Wrap(nil) is nil
+		case "google.golang.org/grpc/status.Error", "google.golang.org/grpc/status.Errorf":
+			if k, ok := x.Call.Args[0].(*ssa.Const); ok && !an.IsConstInt(k, 0) {
+				return ""
+			}
+			return "status.Error with a code that is not a non-OK constant (codes.OK yields a nil error): " + an.Term(x.Call.Args[0])
+		}
+		if prog.InModule(f) && f.Blocks != nil && !x.Call.IsInvoke() {
+			// a module helper: every return must be non-nil, its error parameters standing for the non-nil arguments
+			nn := map[ssa.Value]bool{}
+			for i, p := range f.Params {
+				if i < len(x.Call.Args) && nonNilError(x.Call.Args[i], nonNil, depth+1) == "" && isErrorType(p.Type()) {
+					nn[p] = true
+				}
+			}
+			k := errResultIndex(f)
+			if k < 0 {
+				return "the result of " + prog.ShortFunc(f)
+			}
+			for _, ret := range an.Returns(f) {
+				if why := nonNilError(an.Result(ret, k), nn, depth+1); why != "" {
+					return "in " + prog.ShortFunc(f) + ": " + why
+				}
+			}
+			return ""
+		}
+		return "the result of " + f.String()
+	}
+	return "a value that is not known to be non-nil: " + an.Term(v)
 }
 
 func isSliceType(t types.Type) bool {
